@@ -1,3 +1,4 @@
+//go:debug asynctimerchan=0
 package simrt
 
 import (
